@@ -32,6 +32,8 @@ RULE = (
     "which a packet was actually sealed/opened or an altered copy was processed by a live receiver; distinct = hash of the "
     "parameter tuple / (flight, packet type, receiver state, alteration class)."
 )
+RULE += ' Tamper matrix (client role) also delivers, before every genuine server datagram once a server packet was processed, a Retry packet the server never sent (valid public-key integrity tag): the state digest (which includes installed keys and discarded spaces) must not move. Wire runs: a genuine 0-RTT packet delivered to a server holding 0-RTT receive keys must be opened (packets sent before the client restarted after Retry / Version Negotiation are exempt).'
+
 ASSUMPTIONS = [
     "vf.refcrypto/vf.refwire implement RFC 9001/9369 correctly (they were written from the RFCs and share no code with aioquic; "
     "cryptographic primitives come from the `cryptography` package)",
